@@ -48,3 +48,17 @@ package actionlint
 //@   props C20
 //@   anchor
 //@   at_return result1 == nil && err != nil ==> istype(err, "*exec.ExitError") && exitcode(dyn(err, "*exec.ExitError").ProcessState) >= 0 && len(stdout) > 0
+
+// the `paths` globs of the configuration are matched against the path as given (separators
+// normalised, nothing else): toslash is the result of filepath.ToSlash
+//@ spec toslash(p: string): string
+//@ func (*Config).PathConfigs
+//@   props C15
+//@   at_call doublestar.MatchUnvalidated: name == toslash(path0)
+
+// C20: output of shellcheck that is not a JSON list is a fatal error of the run, never "no findings"
+// (jsonbad(b) <=> json.Unmarshal(b, ..) fails)
+//@ spec jsonbad(b: []byte): bool
+//@ func (*RuleShellcheck).runShellcheck$1
+//@   props C20
+//@   ensures err == nil && jsonbad(stdout) ==> result != nil
